@@ -518,7 +518,9 @@ func (fx *FnExec) loopMods(li *loopInfo) {
 					}
 				}
 			}
+			fx.g.eff.inLoop = true
 			fx.g.eff.instrWrites(fx.tc, fx.fn, in, li.mods)
+			fx.g.eff.inLoop = false
 		}
 	}
 	for a := range cells {
